@@ -725,6 +725,8 @@ impl Writer for UperWriter {
 
     #[inline]
     fn write_null<C: null::Constraint>(&mut self, _value: &Null) -> Result<(), Self::Error> {
+        // a NULL has no content, but it is a component of the enclosing SEQUENCE / SET
+        self.write_bit_field_entry(false, true)?;
         Ok(())
     }
 }
@@ -1412,6 +1414,8 @@ impl<B: ScopedBitRead> Reader for UperReader<B> {
 
     #[inline]
     fn read_null<C: null::Constraint>(&mut self) -> Result<Null, Self::Error> {
+        // a NULL has no content, but it is a component of the enclosing SEQUENCE / SET
+        let _ = self.read_bit_field_entry(false)?;
         Ok(Null)
     }
 }
